@@ -60,7 +60,7 @@ def cases(tier, rng):
                 if ctx == 'roll':
                     c['w'] = 3
                 yield c
-    n = {'quick': 500, 'thorough': 10000, 'search': 600}[tier]
+    n = {'quick': 1500, 'thorough': 10000, 'search': 600}[tier]
     for _ in range(n):
         yield gen_case(rng, tier)
 
